@@ -90,7 +90,13 @@ func (pc *PubkeyCache) ValidatorIndex(pubkey BLSPubkey) (index ValidatorIndex, o
 func (pc *PubkeyCache) unsafeValidatorIndex(pubkey BLSPubkey) (index ValidatorIndex, ok bool) {
 	index, ok = pc.pub2idx[pubkey]
 	if !ok && pc.parent != nil {
-		return pc.parent.ValidatorIndex(pubkey)
+		index, ok = pc.parent.ValidatorIndex(pubkey)
+		// Only the part of the parent below trustedParentCount is shared with this cache:
+		// later parent entries belong to the other side of the fork (or were replaced in this cache).
+		if ok && index >= pc.trustedParentCount {
+			return 0, false
+		}
+		return index, ok
 	}
 	return index, ok
 }
